@@ -52,6 +52,3 @@ Lemma tie_handler_map :
     (nm "shutdown", nm "Shutdown", Request);
     (nm "exit", nm "Exit", Notification) ].
 Proof. vm_compute. reflexivity. Qed.
-
-Lemma tie_background_names : map hfunc background = map nm ["handleRecv"; "UDPReportOnline"].
-Proof. vm_compute. reflexivity. Qed.
